@@ -135,6 +135,7 @@ impl Scenario for S4 {
             ("drop", sw.u_or("w_drop", 0)),
             ("jump", sw.u_or("w_jump", 0)),
             ("clonefrom", if mix == "C18" { 0 } else { sw.u_or("w_clone", 1).min(1) }),
+            ("views", 1),
         ];
         let total: u128 = wts.iter().map(|x| x.1).sum();
         let mut c = r.below(total.max(1) as u64) as u128;
@@ -188,6 +189,10 @@ impl Scenario for S4 {
             "jump" => {
                 let (k, _) = super::s6_counters::pick_k(r, t.ty);
                 Op::new(t32, "jump", &[("blocks", k)])
+            }
+            "views" => {
+                let b = TYPES[t.ty].block as u64;
+                Op::new(t32, "views", &[("len", r.range(0, 3 * b) as u128), ("grow", *r.pick(&[1u64, b - 1, b, b + 1, 2 * b + 3]) as u128), ("dseed", st.data.next() as u128)])
             }
             "clonefrom" => {
                 // Clone::clone_from(dst = this task, src = another live task of the same type), if there is one
@@ -544,6 +549,50 @@ fn step_inner(w: &mut World, ti: usize, op: &Op, stats: &mut Stats, rh: &mut u64
             t.cloned = false;
             t.reused = false;
             t.multi_with_fill = false;
+            Step::Done
+        }
+        "views" => {
+            // update() with an argument whose as_ref() is not idempotent (a view of a growing buffer): on a CLONE of the
+            // instance; the digest must be that of the bytes absorbed so far followed by ONE of the views handed out
+            let len = (op.get("len") as usize).min(1 << 12);
+            let grow = (op.get("grow") as usize).min(1 << 10).max(1);
+            let t = &w.tasks[ti];
+            stats.hit("op.update_with_non_idempotent_as_ref");
+            let all = pattern(op.get("dseed") as u64 | 2, len + 2 * grow);
+            let views: [&[u8]; 3] = [&all[..len], &all[..len + grow], &all[..len + 2 * grow]];
+            let mut c = match guarded(|| t.real.as_ref().unwrap().clone_box()) {
+                Ok(c) => c,
+                Err(_) => return Step::Skip,
+            };
+            let res = guarded(|| {
+                let calls = c.update_views(&views);
+                (calls, c.finalize_box())
+            });
+            let (calls, got) = match res {
+                Ok(r) => r,
+                Err(m) => return Step::Fail(Violation::new(&["C08", "C17"], "H0", format!("update with a growing view panics:{}", tyname), m)),
+            };
+            *rh = hash_bytes(&got);
+            let mut matches = false;
+            for v in views.iter() {
+                let mut probe = Task { ty: t.ty, real: None, msg: t.msg.clone(), jumps: t.jumps.clone(), cloned: false, reused: false, multi_with_fill: false };
+                probe.msg.extend_from_slice(v);
+                if guarded(|| oneshot_with_jumps(&probe)).map(|d| d == got).unwrap_or(false) {
+                    matches = true;
+                    break;
+                }
+            }
+            if !matches {
+                return Step::Fail(Violation::new(
+                    &["C08", "C17"],
+                    "H2",
+                    format!("digest matches none of the views handed out by as_ref():{}:calls={}", tyname, calls),
+                    format!("{}: {} bytes absorbed, then update(view) where as_ref() returns {} / {} / {} bytes on successive calls ({} calls were made): the digest is not that of any of them", tyname, t.msg.len(), len, len + grow, len + 2 * grow, calls),
+                ));
+            }
+            if calls > 1 {
+                stats.hit("probe.as_ref_called_more_than_once");
+            }
             Step::Done
         }
         "clonefrom" => {
